@@ -37,3 +37,122 @@ pub fn any_abs_n(n: usize, maxcap: usize, mincap: usize) -> Abs {
 pub fn build_rev<S: BuildHasher, E: OnEvictCallback>(a: &Abs, hasher: S, cb: Option<E>) -> RawLRU<u8, u8, E, S> {
     RawLRU::verif_from_parts_rev(a.cap, hasher, cb, a.n, |i| (a.k[i], a.v[i]))
 }
+
+
+// ------------------------------------------------------------------ drop-tracked payloads (C04 ghost state)
+
+/// every key and value object carries an id; dropping it bumps DROPS[id]
+pub const IDS: usize = 32;
+static mut DROPS: [u8; IDS] = [0; IDS];
+
+pub fn drops(id: u8) -> u8 {
+    unsafe { DROPS[id as usize] }
+}
+pub fn set_drops(id: u8, n: u8) {
+    unsafe { DROPS[id as usize] = n }
+}
+pub fn reset_drops() {
+    unsafe { DROPS = [0; IDS] }
+}
+
+#[derive(PartialEq, Eq, Hash)]
+pub struct Tk(pub u8);
+pub struct Tv(pub u8);
+impl Drop for Tk {
+    fn drop(&mut self) {
+        unsafe { DROPS[self.0 as usize] += 1 }
+    }
+}
+impl Drop for Tv {
+    fn drop(&mut self) {
+        unsafe { DROPS[self.0 as usize] += 1 }
+    }
+}
+impl Vid for Tk {
+    fn vid(&self) -> u8 {
+        self.0
+    }
+}
+impl Vid for Tv {
+    fn vid(&self) -> u8 {
+        self.0
+    }
+}
+
+/// ids of all keys and values of the given lists, as a bit mask
+pub fn ids_of(lists: &[&Abs]) -> u32 {
+    let mut m = 0u32;
+    let mut li = 0;
+    while li < lists.len() {
+        let mut i = 0;
+        while i < NMAX {
+            if i < lists[li].n {
+                m |= 1 << lists[li].k[i];
+                m |= 1 << lists[li].v[i];
+            }
+            i += 1;
+        }
+        li += 1;
+    }
+    m
+}
+
+/// C04: of the objects handed to the cache (`created`), those still retained (ids of `retained`) were never
+/// dropped and every other one was dropped exactly once (the caller has already dropped what it got back)
+pub fn conserved(created: u32, retained: u32) -> bool {
+    let mut ok = true;
+    let mut id = 0u8;
+    while (id as usize) < IDS {
+        let was_created = (created >> id) & 1 == 1;
+        let is_retained = (retained >> id) & 1 == 1;
+        let want = if was_created && !is_retained { 1 } else { 0 };
+        if drops(id) != want {
+            ok = false;
+        }
+        id += 1;
+    }
+    ok
+}
+
+/// arbitrary list view for tracked payloads: key ids below 16, value ids in 16..32, value ids distinct
+pub fn any_tracked_abs(maxcap: usize, mincap: usize) -> Abs {
+    let a = any_abs(maxcap, mincap);
+    let mut i = 0;
+    while i < NMAX {
+        if i < a.n {
+            kani::assume(a.k[i] < 16 && a.v[i] >= 16 && a.v[i] < 32);
+            let mut j = 0;
+            while j < i {
+                kani::assume(a.v[i] != a.v[j]);
+                j += 1;
+            }
+        }
+        i += 1;
+    }
+    a
+}
+
+pub fn build_tracked<S: BuildHasher>(a: &Abs, hasher: S) -> RawLRU<Tk, Tv, crate::DefaultEvictCallback, S> {
+    RawLRU::verif_from_parts(a.cap, hasher, None, a.n, |i| (Tk(a.k[i]), Tv(a.v[i])))
+}
+
+/// value ids of the lists are pairwise distinct across lists
+pub fn values_distinct(lists: &[&Abs]) -> bool {
+    let mut seen = 0u32;
+    let mut ok = true;
+    let mut li = 0;
+    while li < lists.len() {
+        let mut i = 0;
+        while i < NMAX {
+            if i < lists[li].n {
+                if (seen >> lists[li].v[i]) & 1 == 1 {
+                    ok = false;
+                }
+                seen |= 1 << lists[li].v[i];
+            }
+            i += 1;
+        }
+        li += 1;
+    }
+    ok
+}
